@@ -40,10 +40,15 @@ type site struct {
 	line int
 	fn   string
 	hot  bool
+	sync bool // follows a statement that used a lock, an atomic or a function that does
 }
 
 var (
-	sites []site
+	sites        []site
+	poolRewrites int
+	// syncFuncs: names of functions / methods of the package whose body uses a
+	// lock, a sync.Once or an atomic operation (one level, by name).
+	syncFuncs = map[string]bool{}
 )
 
 func main() {
@@ -76,6 +81,22 @@ func main() {
 		files = append(files, n)
 	}
 	sort.Strings(files)
+
+	// pre-pass: which functions of the package synchronise?
+	{
+		pf := token.NewFileSet()
+		for _, name := range files {
+			f, err := parser.ParseFile(pf, filepath.Join(*dir, name), nil, 0)
+			if err != nil {
+				fatal(err)
+			}
+			for _, d := range f.Decls {
+				if fd, ok := d.(*ast.FuncDecl); ok && fd.Body != nil && usesSyncPrimitive(fd.Body) {
+					syncFuncs[fd.Name.Name] = true
+				}
+			}
+		}
+	}
 
 	fset := token.NewFileSet()
 	var globals []string
@@ -148,6 +169,30 @@ func main() {
 				}
 			}
 		}
+		// sync.Pool drops and keeps objects depending on GC timing and, in race
+		// builds, on an unseeded random number: a source of nondeterminism the
+		// simulator must own. It is replaced by a deterministic LIFO pool with
+		// the same happens-before semantics (Put(x) -> the Get that returns x).
+		pools := 0
+		ast.Inspect(f, func(n ast.Node) bool {
+			se, ok := n.(*ast.SelectorExpr)
+			if !ok {
+				return true
+			}
+			if id, ok := se.X.(*ast.Ident); ok && id.Name == "sync" && se.Sel.Name == "Pool" {
+				b := fset.Position(se.Pos()).Offset
+				e := fset.Position(se.End()).Offset
+				ins = append(ins, insertion{off: b, text: "\x00" + fmt.Sprint(e-b) + "\x00verifPool", ord: ord})
+				ord++
+				pools++
+			}
+			return true
+		})
+		if pools > 0 {
+			ins = append(ins, insertion{off: len(src), text: "\nvar _ sync.Locker // keep the import used after the sync.Pool rewrite\n", ord: ord})
+			ord++
+			poolRewrites += pools
+		}
 		// yields
 		for _, d := range f.Decls {
 			fd, ok := d.(*ast.FuncDecl)
@@ -184,8 +229,9 @@ func main() {
 	}
 	sort.Strings(globals)
 	writeHooks(*dir, pkgName)
+	writeRaceShims(*dir, pkgName)
 	writeAccess(*dir, pkgName, globals, hasBigIntInner && hasNegSentinel)
-	fmt.Printf("instr: %d files, %d yield sites, %d package-level vars, knobs=%v\n", len(files), len(sites), len(globals), knobApplied)
+	fmt.Printf("instr: %d files, %d yield sites, %d package-level vars, %d sync.Pool rewrites, knobs=%v\n", len(files), len(sites), len(globals), poolRewrites, knobApplied)
 }
 
 func fatal(err error) {
@@ -261,15 +307,77 @@ func selCallName(e ast.Expr) string {
 	return s.Sel.Name
 }
 
+var syncPrimitives = map[string]bool{"Lock": true, "RLock": true, "Unlock": true, "RUnlock": true, "TryLock": true, "Do": true,
+	"Load": true, "Store": true, "Swap": true, "CompareAndSwap": true, "Wait": true, "Signal": true, "Broadcast": true}
+
+// usesSyncPrimitive reports whether n directly calls a lock, sync.Once, cond
+// or atomic operation.
+func usesSyncPrimitive(n ast.Node) bool {
+	found := false
+	ast.Inspect(n, func(x ast.Node) bool {
+		if found {
+			return false
+		}
+		c, ok := x.(*ast.CallExpr)
+		if !ok {
+			return true
+		}
+		if se, ok := c.Fun.(*ast.SelectorExpr); ok {
+			if syncPrimitives[se.Sel.Name] {
+				found = true
+			}
+			if id, ok := se.X.(*ast.Ident); ok && id.Name == "atomic" {
+				found = true
+			}
+		}
+		return true
+	})
+	return found
+}
+
+// stmtSyncs reports whether n uses a synchronisation primitive directly or
+// calls (by name) a function of the package that does.
+func stmtSyncs(n ast.Node) bool {
+	if n == nil {
+		return false
+	}
+	if usesSyncPrimitive(n) {
+		return true
+	}
+	found := false
+	ast.Inspect(n, func(x ast.Node) bool {
+		if found {
+			return false
+		}
+		c, ok := x.(*ast.CallExpr)
+		if !ok {
+			return true
+		}
+		switch f := c.Fun.(type) {
+		case *ast.Ident:
+			found = syncFuncs[f.Name]
+		case *ast.SelectorExpr:
+			found = syncFuncs[f.Sel.Name]
+		}
+		return true
+	})
+	return found
+}
+
+// firstSync: the statement list about to be instrumented is the body of an
+// if / for whose header synchronised (check-then-act windows).
+var firstSync bool
+
 func instrumentBody(fset *token.FileSet, file, fn string, body *ast.BlockStmt, add func(token.Pos, string)) {
 	var doList func(list []ast.Stmt)
 	var walk func(n ast.Node)
 	doList = func(list []ast.Stmt) {
 		prevHot := false
+		prevSync := firstSync
 		for _, st := range list {
 			id := len(sites)
 			p := fset.Position(st.Pos())
-			sites = append(sites, site{file: file, line: p.Line, fn: fn, hot: prevHot})
+			sites = append(sites, site{file: file, line: p.Line, fn: fn, hot: prevHot, sync: prevSync})
 			text := fmt.Sprintf("verifY(%d); ", id)
 			// lock discipline
 			switch s := st.(type) {
@@ -292,12 +400,34 @@ func instrumentBody(fset *token.FileSet, file, fn string, body *ast.BlockStmt, a
 			add(st.Pos(), text)
 			// a statement that obtained a pointer into shared package state
 			prevHot = callsNamed(st, "tableExp10", "exp10", "get")
+			prevSync = stmtSyncs(st)
 			walk(st)
 		}
 	}
 	walk = func(n ast.Node) {
 		ast.Inspect(n, func(x ast.Node) bool {
 			switch b := x.(type) {
+			case *ast.IfStmt:
+				hs := false
+				if b.Init != nil {
+					walk(b.Init)
+					hs = hs || stmtSyncs(b.Init)
+				}
+				walk(b.Cond)
+				hs = hs || stmtSyncs(b.Cond)
+				firstSync = hs
+				doList(b.Body.List)
+				firstSync = false
+				if b.Else != nil {
+					if eb, ok := b.Else.(*ast.BlockStmt); ok {
+						firstSync = hs
+						doList(eb.List)
+						firstSync = false
+					} else {
+						walk(b.Else)
+					}
+				}
+				return false
 			case *ast.SwitchStmt:
 				if b.Init != nil {
 					walk(b.Init)
@@ -377,7 +507,7 @@ func apply(src []byte, ins []insertion) []byte {
 
 func writeHooks(dir, pkg string) {
 	var b bytes.Buffer
-	fmt.Fprintf(&b, "//go:build verif\n\n// Code generated by /verif/sim/cmd/instr. DO NOT EDIT.\n\npackage %s\n\n", pkg)
+	fmt.Fprintf(&b, "//go:build verif\n\n// Code generated by /verif/sim/cmd/instr. DO NOT EDIT.\n\npackage %s\n\nimport \"unsafe\"\n\n", pkg)
 	b.WriteString(`// VerifHook, when non-nil, is called at every yield point. It must be a
 // //go:norace function.
 var VerifHook func(site int32)
@@ -398,22 +528,73 @@ func verifY(site int32) {
 //go:norace
 func verifLk(d int32) { verifLkDepth += d }
 
+// verifPool replaces sync.Pool in the instrumented copy: deterministic LIFO,
+// never dropped by the GC or at random. It has no yield point inside, so under
+// the cooperative scheduler Get and Put are atomic; the per-object
+// happens-before edge of sync.Pool (Put(x) -> the Get returning x) is
+// reproduced for the race detector, and nothing else is.
+type verifPool struct {
+	New   func() interface{}
+	items []interface{}
+}
+
+//go:norace
+func (p *verifPool) Get() interface{} {
+	if n := len(p.items); n > 0 {
+		x := p.items[n-1]
+		p.items[n-1] = nil
+		p.items = p.items[:n-1]
+		verifRaceAcquire(verifDataPtr(x))
+		return x
+	}
+	if p.New != nil {
+		return p.New()
+	}
+	return nil
+}
+
+//go:norace
+func (p *verifPool) Put(x interface{}) {
+	if x == nil {
+		return
+	}
+	verifRaceRelease(verifDataPtr(x))
+	p.items = append(p.items, x)
+}
+
+//go:norace
+func verifDataPtr(x interface{}) unsafe.Pointer {
+	return (*[2]unsafe.Pointer)(unsafe.Pointer(&x))[1]
+}
+
 // VerifSite describes one yield site.
 type VerifSite struct {
 	File string
 	Line int
 	Func string
 	Hot  bool
+	Sync bool
 }
 
 // VerifSites is the table of yield sites, indexed by site id.
 var VerifSites = []VerifSite{
 `)
 	for _, s := range sites {
-		fmt.Fprintf(&b, "\t{%q, %d, %q, %v},\n", s.file, s.line, s.fn, s.hot)
+		fmt.Fprintf(&b, "\t{%q, %d, %q, %v, %v},\n", s.file, s.line, s.fn, s.hot, s.sync)
 	}
 	b.WriteString("}\n")
 	if err := os.WriteFile(filepath.Join(dir, "zz_verif_hooks.go"), b.Bytes(), 0o644); err != nil {
+		fatal(err)
+	}
+}
+
+func writeRaceShims(dir, pkg string) {
+	race := fmt.Sprintf("//go:build verif && race\n\n// Code generated by /verif/sim/cmd/instr. DO NOT EDIT.\n\npackage %s\n\nimport (\n\t\"runtime\"\n\t\"unsafe\"\n)\n\n//go:norace\nfunc verifRaceAcquire(p unsafe.Pointer) {\n\tif p != nil {\n\t\truntime.RaceAcquire(p)\n\t}\n}\n\n//go:norace\nfunc verifRaceRelease(p unsafe.Pointer) {\n\tif p != nil {\n\t\truntime.RaceReleaseMerge(p)\n\t}\n}\n", pkg)
+	norace := fmt.Sprintf("//go:build verif && !race\n\n// Code generated by /verif/sim/cmd/instr. DO NOT EDIT.\n\npackage %s\n\nimport \"unsafe\"\n\nfunc verifRaceAcquire(p unsafe.Pointer) {}\nfunc verifRaceRelease(p unsafe.Pointer) {}\n", pkg)
+	if err := os.WriteFile(filepath.Join(dir, "zz_verif_race.go"), []byte(race), 0o644); err != nil {
+		fatal(err)
+	}
+	if err := os.WriteFile(filepath.Join(dir, "zz_verif_norace.go"), []byte(norace), 0o644); err != nil {
 		fatal(err)
 	}
 }
